@@ -71,6 +71,15 @@ theorem ordered_traces (w : World) (op : Op) : ∀ ep ∈ episodes w op, traceOK
     simp only [episodes, List.mem_singleton] at hep
     subst hep; exact workloads_ok w ig ids [] (by intro h hm; cases hm)
 
+/-- an episode cut short by a failing acquisition (wait timeout, store error) is disciplined too -/
+theorem failed_acquisition_ok (w : World) (op : Op) (k : Nat) :
+    ∀ ep ∈ episodes w op, traceOK (failTrunc k ep) = true :=
+  fun ep hep => failTrunc_ok k ep (ordered_traces w op ep hep)
+
+/-- **nesting_ok.**  Every call site of a lock helper in cluster/calcium (table re-derived from the
+    source on every run) nests only pod ⊃ workload; node-operation locks are never nested. -/
+theorem nesting_ok : ∀ s ∈ nestingTable, allowedNesting s.outer s.inner = true := by decide
+
 /-- threads that run episodes of cluster operations, started holding nothing -/
 def threadsOf (eps : List Trace) : List (Thread Key) := eps.map fun ep => ⟨[], ep⟩
 
